@@ -403,6 +403,9 @@ def ob_reshift_bound(F, parent, fn, sites):
     return True, "limit/batch per implementation: %s; (K-1)+B+1 <= 65535" % out
 
 
+INVARIANTS = [(P + "bit_writer::BitWriter", "bits_in", P + "bit_writer::BitWriter::flush_whole_bytes")]
+
+
 def assert_restates_guard(F, b, site_bb):
     """A new `assert!` / `debug_assert!` whose condition is implied by the linear guards that dominate it (the negated exit
     condition of the loop just left, a length test that already returned Err ...) cannot fire: it needs no review."""
@@ -506,6 +509,21 @@ def assert_restates_guard(F, b, site_bb):
             ok = k is not None and (ubv < k if op == "Lt" else ubv <= k)
         except Exception:
             ok = False
+    if not ok and op in ("Lt", "Le"):
+        # a representation invariant of the receiver, tested on entry before anything stores the field (pfa/inv.py)
+        try:
+            from .. import inv
+            lp = op_place(d[3]["l"])
+            src = b.single_def(lp["l"]) if lp is not None and not lp["p"] else None
+            fp = op_place(src[3]["op"]) if src and src[2] == "assign" and src[3]["k"] == "use" else None
+            k = flow.const_eval(b, d[3]["r"])
+            for adt, field, drain in INVARIANTS:
+                if fp is not None and fp["l"] == 1 and inv._field_in(fp, field) and adt in b.locals[1]["ty"] and k is not None and inv.at_entry_before_store(b, d[0], field):
+                    K, why = inv.drain_invariant(F, adt, field, drain)
+                    if K is not None and (K <= k if op == "Lt" else K - 1 <= k):
+                        ok = True
+        except Exception:
+            pass
     return ok, "%s(%s, %s) follows from the guards in force" % (op, flow.describe(b, d[3]["l"], names=True), flow.describe(b, d[3]["r"], names=True)) if ok else "not implied by the dominating guards"
 
 
